@@ -19,8 +19,8 @@ def build(b, gdir, engine_srcs, name, opt='-O2', world_srcs=('wrap_generic.c',),
     os.makedirs(d, exist_ok=True)
     I = os.path.join(core.ROOT, 'ilp32')
     base = ['gcc', '-m32', '-march=i686', '-std=gnu99', '-ffreestanding', '-nostdinc', '-fno-stack-protector', '-fno-pie', '-w',
-            '-isystem', gcc_include(), '-I' + os.path.join(I, 'include')]
-    inc_w = ['-I' + os.path.join(core.REPO, 'include'), '-I' + os.path.join(core.ROOT, 'world')]
+            '-isystem', gcc_include(), '-idirafter', os.path.join(I, 'include')]
+    inc_w = ['-I' + os.path.join(core.REPO, 'include'), '-I' + os.path.join(core.REPO, 'src'), '-I' + os.path.join(core.ROOT, 'world')]
     inc_n = ['-I' + gdir, '-I' + os.path.join(core.ROOT, 'engine'), '-I' + os.path.join(core.ROOT, 'world')]
     cmds, objs = [], []
 
